@@ -281,72 +281,103 @@ func execM(toks []string) string {
 }
 
 // ---------------------------------------------------------------- g mode (real goroutine)
-
-const cluster = "verif-c06"
+//
+// Every case has its own gate (keyed by a fresh cluster name), every wait is bounded, and a checker that outlives
+// its case (a defect: it should stop once the backend is released) is parked "dormant" (one refused connect, then a
+// one-hour CheckInterval sleep) and discounted from later cases through a baseline, so one bad case cannot wedge or
+// distort the rest of the run.
 
 type gate struct {
+	name     string
 	mu       sync.Mutex
 	reqConf  *cluster_conf.BackendCheck // conf handed to request threads (FailNum)
 	arrivals int64                      // how often a checker arrived at the gate
 	ch       chan *cluster_conf.BackendCheck
-	draining int32
+	kill     chan struct{} // closed at the end of the case
+	base     int           // check goroutines left over from earlier cases
 }
 
-var g = &gate{ch: make(chan *cluster_conf.BackendCheck)}
-
 var (
+	gates     sync.Map // cluster name -> *gate
+	caseNo    int64
 	lnPort    int
 	accepted  int64
 	barrierCh = make(chan struct{}, 16)
 )
 
+const waitMax = 3 * time.Second
+
 func isChecker() bool {
-	buf := make([]byte, 4096)
+	buf := make([]byte, 8192)
 	n := runtime.Stack(buf, false)
 	return strings.Contains(string(buf[:n]), "bfe_balance/backend.check(")
 }
 
-// liveCheckers counts goroutines that run health_check.go:check, including ones created by
-// `go check(...)` in UpdateStatus that have not started yet (they show as UpdateStatus.gowrapN).
 var stackBuf = make([]byte, 1<<16)
 
-func liveCheckers() int {
-	buf := stackBuf
-	n := runtime.Stack(buf, true)
-	k := 0
-	for _, blk := range strings.Split(string(buf[:n]), "\n\n") {
-		if strings.Contains(blk, "bfe_balance/backend.check(") ||
-			strings.Contains(blk, "bfe_balance/backend.UpdateStatus.gowrap") {
-			k++
+// allCheckers counts goroutines that run health_check.go:check, including ones created by
+// `go check(...)` in UpdateStatus that have not started yet (they show as UpdateStatus.gowrapN).
+func allCheckers() int {
+	for {
+		n := runtime.Stack(stackBuf, true)
+		if n < len(stackBuf) {
+			k := 0
+			for _, blk := range strings.Split(string(stackBuf[:n]), "\n\n") {
+				if strings.Contains(blk, "bfe_balance/backend.check(") ||
+					strings.Contains(blk, "bfe_balance/backend.UpdateStatus.gowrap") {
+					k++
+				}
+			}
+			return k
 		}
+		stackBuf = make([]byte, 2*len(stackBuf))
+	}
+}
+
+func (g *gate) live() int {
+	k := allCheckers() - g.base
+	if k < 0 {
+		k = 0
 	}
 	return k
 }
 
-func mkConf(failNum, succNum int, port int) *cluster_conf.BackendCheck {
+func mkConf(failNum, succNum int, port int, intervalMs int) *cluster_conf.BackendCheck {
 	schem := "tcp"
 	host := ":" + strconv.Itoa(port)
 	timeout := 2000
-	interval := 1
 	uri := "/"
 	sc := 200
 	return &cluster_conf.BackendCheck{Schem: &schem, Uri: &uri, Host: &host, StatusCode: &sc,
-		FailNum: &failNum, SuccNum: &succNum, CheckTimeout: &timeout, CheckInterval: &interval}
+		FailNum: &failNum, SuccNum: &succNum, CheckTimeout: &timeout, CheckInterval: &intervalMs}
 }
 
-func fetcher(string) *cluster_conf.BackendCheck {
+func dormant() *cluster_conf.BackendCheck { return mkConf(1, 1<<30, 1, 3600*1000) }
+
+func fetcher(cluster string) *cluster_conf.BackendCheck {
+	v, ok := gates.Load(cluster)
+	if !ok {
+		return dormant()
+	}
+	g := v.(*gate)
 	if !isChecker() {
 		g.mu.Lock()
 		c := g.reqConf
 		g.mu.Unlock()
 		return c
 	}
-	if atomic.LoadInt32(&g.draining) == 1 {
-		return mkConf(1, 1<<30, 1)
+	select {
+	case <-g.kill:
+		return dormant()
+	default:
 	}
 	atomic.AddInt64(&g.arrivals, 1)
-	c := <-g.ch
-	return c
+	select {
+	case c := <-g.ch:
+		return c
+	case <-g.kill:
+		return dormant()
+	}
 }
 
 func startListener() {
@@ -377,25 +408,30 @@ func startListener() {
 
 // barrier returns after every connection made before it has been accepted and counted (FIFO accept queue,
 // single accept loop).
-func barrier() {
-	c, err := net.Dial("tcp", "127.0.0.1:"+strconv.Itoa(lnPort))
+func barrier() bool {
+	c, err := net.DialTimeout("tcp", "127.0.0.1:"+strconv.Itoa(lnPort), waitMax)
 	if err != nil {
-		panic(err)
+		return false
 	}
+	defer c.Close()
 	c.Write([]byte{1})
-	<-barrierCh
-	c.Close()
+	select {
+	case <-barrierCh:
+		return true
+	case <-time.After(waitMax):
+		return false
+	}
 }
 
-// waitQuiet waits until a checker has arrived at the gate `arrivals` times in total, or no checker is alive.
-func waitQuiet(wantArrivals int64) bool {
-	deadline := time.Now().Add(10 * time.Second)
+// waitQuiet waits (bounded) until a checker has arrived at the gate `wantArrivals` times in total, or no checker of
+// this case is alive.
+func (g *gate) waitQuiet(wantArrivals int64) bool {
+	deadline := time.Now().Add(waitMax)
 	for {
 		if atomic.LoadInt64(&g.arrivals) >= wantArrivals {
 			return true
 		}
-		if liveCheckers() == 0 {
-			// re-check arrivals: the checker may have arrived and … no: a parked checker is alive.
+		if g.live() == 0 {
 			return true
 		}
 		if time.Now().After(deadline) {
@@ -405,49 +441,86 @@ func waitQuiet(wantArrivals int64) bool {
 	}
 }
 
+// pass lets the parked checker run one iteration with conf c (bounded).
+func (g *gate) pass(c *cluster_conf.BackendCheck) bool {
+	select {
+	case g.ch <- c:
+		return true
+	case <-time.After(waitMax):
+		return false
+	}
+}
+
 var once sync.Once
 
-func newBackend() *backend.BfeBackend {
-	b := backend.NewBfeBackend()
-	name, addr, port, w := "b0", "127.0.0.1", lnPort, 1
-	b.Init("sub", &cluster_table_conf.BackendConf{Name: &name, Addr: &addr, Port: &port, Weight: &w})
-	return b
-}
-
-func drain(b *backend.BfeBackend) {
-	// end of case: no checker may stay behind
-	atomic.StoreInt32(&g.draining, 1)
-	if !closed(b) {
-		b.Release()
-	}
-	// a parked checker needs one release of the gate
-	for i := 0; i < 2000 && liveCheckers() > 0; i++ {
-		select {
-		case g.ch <- mkConf(1, 1<<30, 1):
-		default:
-		}
-		time.Sleep(200 * time.Microsecond)
-	}
-	atomic.StoreInt32(&g.draining, 0)
-}
-
-func obs7(b *backend.BfeBackend, base int64) string {
-	barrier()
-	return fmt.Sprintf("%s:%d:%d", st5(b), liveCheckers(), atomic.LoadInt64(&accepted)-base)
-}
-
-func execG(toks []string) string {
+func newCase() (*gate, *backend.BfeBackend) {
 	once.Do(func() {
 		startListener()
 		backend.SetCheckConfFetcher(fetcher)
 	})
-	b := newBackend()
-	defer drain(b)
-	barrier()
+	g := &gate{name: "verif-c06-" + strconv.FormatInt(atomic.AddInt64(&caseNo, 1), 10),
+		ch: make(chan *cluster_conf.BackendCheck), kill: make(chan struct{})}
+	g.base = allCheckers()
+	gates.Store(g.name, g)
+	b := backend.NewBfeBackend()
+	name, addr, port, w := "b0", "127.0.0.1", lnPort, 1
+	b.Init("sub", &cluster_table_conf.BackendConf{Name: &name, Addr: &addr, Port: &port, Weight: &w})
+	return g, b
+}
+
+// finish releases the backend (what a reload does with a removed backend), lets a parked checker run the one
+// iteration it is committed to, and reports how many check goroutines of this case are still alive afterwards:
+// `end:0` is what the property demands.  Whatever is left is made dormant.
+func (g *gate) finish(b *backend.BfeBackend, parked bool, arr int64) string {
+	if !closed(b) {
+		b.Release()
+	}
+	res := "end:0"
+	if parked {
+		if !g.pass(mkConf(1, 1<<30, 1, 1)) {
+			res = "end:HANG"
+		} else if !g.waitQuiet(arr + 1) {
+			res = "end:HANG"
+		}
+	} else if !g.waitQuiet(1 << 60) {
+		res = "end:HANG"
+	}
+	if res == "end:0" {
+		if n := g.live(); n != 0 {
+			res = "end:" + strconv.Itoa(n) // still running (e.g. parked in the gate again) although released
+		}
+	}
+	close(g.kill)
+	if res != "end:0" {
+		// give leftovers a moment to fall into their dormant sleep so that the next baseline is stable
+		time.Sleep(5 * time.Millisecond)
+	}
+	gates.Delete(g.name)
+	return res
+}
+
+func (g *gate) obs7(b *backend.BfeBackend, base int64) string {
+	if !barrier() {
+		return "HANG:barrier"
+	}
+	return fmt.Sprintf("%s:%d:%d", st5(b), g.live(), atomic.LoadInt64(&accepted)-base)
+}
+
+func execG(toks []string) (res string) {
+	g, b := newCase()
+	if !barrier() {
+		return "HANG:barrier"
+	}
 	base := atomic.LoadInt64(&accepted)
-	arr := atomic.LoadInt64(&g.arrivals)
+	arr := int64(0)
 	parked := false // a checker is parked in the gate
-	out := make([]string, 0, len(toks))
+	out := make([]string, 0, len(toks)+1)
+	defer func() {
+		end := g.finish(b, parked, arr)
+		if !strings.HasPrefix(res, "bad-op") {
+			res = strings.TrimSpace(res + " " + end)
+		}
+	}()
 	for _, t := range toks {
 		switch {
 		case t == "S":
@@ -460,15 +533,15 @@ func execG(toks []string) string {
 				return "bad-op"
 			}
 			g.mu.Lock()
-			g.reqConf = mkConf(v, 1, lnPort)
+			g.reqConf = mkConf(v, 1, lnPort, 1)
 			g.mu.Unlock()
-			before := liveCheckers()
-			b.OnFail(cluster)
+			before := g.live()
+			b.OnFail(g.name)
 			if !parked {
 				// a new checker either parks (arrival) or, if the backend is released, exits at once
-				if liveCheckers() > before || atomic.LoadInt64(&g.arrivals) > arr {
-					if !waitQuiet(arr + 1) {
-						return "HANG"
+				if g.live() > before || atomic.LoadInt64(&g.arrivals) > arr {
+					if !g.waitQuiet(arr + 1) {
+						return strings.Join(append(out, "HANG:spawn"), " ")
 					}
 					if atomic.LoadInt64(&g.arrivals) > arr {
 						arr = atomic.LoadInt64(&g.arrivals)
@@ -490,10 +563,12 @@ func execG(toks []string) string {
 				if f[0] == "1" {
 					port = lnPort
 				}
-				g.ch <- mkConf(1, v, port)
+				if !g.pass(mkConf(1, v, port, 1)) {
+					return strings.Join(append(out, "HANG:gate"), " ")
+				}
 				parked = false
-				if !waitQuiet(arr + 1) {
-					return "HANG"
+				if !g.waitQuiet(arr + 1) {
+					return strings.Join(append(out, "HANG:iteration"), " ")
 				}
 				if atomic.LoadInt64(&g.arrivals) > arr {
 					arr = atomic.LoadInt64(&g.arrivals)
@@ -503,16 +578,12 @@ func execG(toks []string) string {
 		default:
 			return "bad-op"
 		}
-		out = append(out, obs7(b, base))
+		out = append(out, g.obs7(b, base))
 	}
 	return strings.Join(out, " ")
 }
 
-func execX(spec string) string {
-	once.Do(func() {
-		startListener()
-		backend.SetCheckConfFetcher(fetcher)
-	})
+func execX(spec string) (res string) {
 	f := strings.Split(spec, ":")
 	if len(f) != 3 {
 		return "bad-op"
@@ -523,13 +594,18 @@ func execX(spec string) string {
 	if e1 != nil || e2 != nil || e3 != nil || nt < 1 || nt > 64 || per < 1 || per > 64 {
 		return "bad-op"
 	}
-	b := newBackend()
-	defer drain(b)
-	barrier()
+	g, b := newCase()
+	if !barrier() {
+		return "HANG:barrier"
+	}
 	base := atomic.LoadInt64(&accepted)
-	arr := atomic.LoadInt64(&g.arrivals)
+	arr := int64(0)
+	parked := false
+	defer func() {
+		res = res + " " + g.finish(b, parked, arr)
+	}()
 	g.mu.Lock()
-	g.reqConf = mkConf(v, 1, lnPort)
+	g.reqConf = mkConf(v, 1, lnPort, 1)
 	g.mu.Unlock()
 	var wg sync.WaitGroup
 	start := make(chan struct{})
@@ -539,32 +615,39 @@ func execX(spec string) string {
 			defer wg.Done()
 			<-start
 			for k := 0; k < per; k++ {
-				b.OnFail(cluster)
+				b.OnFail(g.name)
 				runtime.Gosched()
 			}
 		}()
 	}
 	close(start)
 	wg.Wait()
-	parked := false
 	if nt*per >= v {
-		if !waitQuiet(arr + 1) {
-			return "HANG"
+		if !g.waitQuiet(1) {
+			return "HANG:spawn"
 		}
 		// give a (wrong) second checker the chance to show up
 		time.Sleep(2 * time.Millisecond)
-		parked = atomic.LoadInt64(&g.arrivals) > arr
-	}
-	r1 := obs7(b, base)
-	if parked {
-		arr = atomic.LoadInt64(&g.arrivals)
-		g.ch <- mkConf(1, 1, lnPort)
-		if !waitQuiet(arr + 1) {
-			return "HANG"
+		if atomic.LoadInt64(&g.arrivals) > arr {
+			arr = atomic.LoadInt64(&g.arrivals)
+			parked = true
 		}
 	}
-	r2 := obs7(b, base)
-	return r1 + " " + r2
+	r1 := g.obs7(b, base)
+	if parked {
+		if !g.pass(mkConf(1, 1, lnPort, 1)) {
+			return r1 + " HANG:gate"
+		}
+		parked = false
+		if !g.waitQuiet(arr + 1) {
+			return r1 + " HANG:iteration"
+		}
+		if atomic.LoadInt64(&g.arrivals) > arr {
+			arr = atomic.LoadInt64(&g.arrivals)
+			parked = true
+		}
+	}
+	return r1 + " " + g.obs7(b, base)
 }
 
 func exec(op string) string {
@@ -576,12 +659,12 @@ func exec(op string) string {
 	case "m":
 		return execM(f[1:])
 	case "g":
-		return execG(f[1:])
+		return vh.SafeTimeout(20*time.Second, func() string { return execG(f[1:]) })
 	case "x":
 		if len(f) != 2 {
 			return "bad-op"
 		}
-		return execX(f[1])
+		return vh.SafeTimeout(20*time.Second, func() string { return execX(f[1]) })
 	}
 	return "bad-op"
 }
